@@ -18,7 +18,7 @@ struct CommentStore { _p: u8 }
 struct CommentReference { _p: usize }
 
 //@extract crates/samlang-ast/src/source.rs :: mod expr / enum BinaryOperator
-//@attr #[derive(Clone, Copy, PartialEq, Eq)]
+//@attr #[derive(Clone, Copy, PartialEq, Eq, Structural)]
 //@end
 
 /// the syntax tree, reduced to what the parenthesis decision looks at
@@ -43,6 +43,11 @@ impl E {
   #[verifier::external_body]
   fn is_binary_with_operator(&self, op: BinaryOperator) -> (r: bool) ensures r == (binary_operator_of(*self) == Some(op)) { unimplemented!() }
 }
+
+/// whether the printed expression ends with `.name` (what the real ends_with_member_name computes; opaque here)
+uninterp spec fn ends_with_member(e: E) -> bool;
+#[verifier::external_body]
+fn ends_with_member_name(expression: &E) -> (r: bool) ensures r == ends_with_member(*expression) { unimplemented!() }
 
 /// abstract documents
 #[verifier::external_body]
@@ -96,12 +101,18 @@ spec fn left_doc_wanted(expression: E, e1: E) -> Document {
 spec fn right_doc_wanted(expression: E, e2: E) -> Document {
   if prec(e2) >= prec(expression) { doc_paren(doc_of(e2)) } else { doc_of(e2) }
 }
+/// `x.name <` would be read as the start of type arguments: a left operand of `<` that ends with a member name is
+/// always parenthesised; otherwise the left operand is parenthesised iff it binds looser
+spec fn binary_doc_wanted(expression: E, e: Binary) -> Document {
+  let left = if e.operator == BinaryOperator::LT && ends_with_member(*e.e1) { doc_paren(doc_of(*e.e1)) } else { left_doc_wanted(expression, *e.e1) };
+  doc_concat(seq![left, doc_comments(e.operator_preceding_comments), doc_operator(e.operator), right_doc_wanted(expression, *e.e2)])
+}
 spec fn is_associative(op: BinaryOperator) -> bool {
   op == BinaryOperator::PLUS || op == BinaryOperator::MUL || op == BinaryOperator::AND || op == BinaryOperator::OR || op == BinaryOperator::CONCAT
 }
 //@extractblock crates/samlang-printer/src/source_printer.rs :: fn create_doc_without_preceding_comment
 //@from let operator_preceding_comments_docs = if let Some(doc) = associated_comments_doc(
-//@to #2 &e.e2, true, ), ])
+//@to #3 &e.e2, true, ), ])
 //@wrap fn binary_arm(heap: &Heap, comment_store: &CommentStore, expression: &E, e: &Binary) -> (r: Document)
 //@replace if let Some(doc) = associated_comments_doc( heap, comment_store, vec![e.operator_preceding_comments], DocumentGrouping::Grouped, false, ) { Document::group(Document::Concat(Rc::new(Document::Line), Rc::new(doc))) } else { Document::Nil } => operator_comments_doc(heap, comment_store, e.operator_preceding_comments) ## R3: the comment docs in front of the operator
 //@replace Document::concat(vec![ Document::Text(" "), Document::Text(e.operator.kind_str()), Document::Text(" "), ]) => operator_doc_of(e.operator) ## R3: the operator text between blanks
@@ -111,13 +122,11 @@ spec fn is_associative(op: BinaryOperator) -> bool {
 //@replace* , ]) => ) ## R3: closing of Document::concat(vec![..]) (see previous rule)
 //@contract
     ensures
-      r == doc_concat(seq![left_doc_wanted(*expression, *e.e1), doc_comments(e.operator_preceding_comments),
-                           doc_operator(e.operator), right_doc_wanted(*expression, *e.e2)])
+      r == binary_doc_wanted(*expression, *e)
       || (prec(*e.e2) == prec(*expression) && is_associative(e.operator) && binary_operator_of(*e.e2) == Some(e.operator)
           && r == doc_concat(seq![left_doc_wanted(*expression, *e.e1), doc_comments(e.operator_preceding_comments),
                                   doc_operator(e.operator), doc_of(*e.e2)])),  // :operands_parenthesised_as_reparsing_needs_up_to_same_associative_operator
-      r == doc_concat(seq![left_doc_wanted(*expression, *e.e1), doc_comments(e.operator_preceding_comments),
-                           doc_operator(e.operator), right_doc_wanted(*expression, *e.e2)]),  // :operands_parenthesised_exactly_as_reparsing_needs
+      r == binary_doc_wanted(*expression, *e),  // :operands_parenthesised_exactly_as_reparsing_needs
 //@end
 
 // ---- the Unary arm.  The grammar's unary operand is a postfix-level expression (`-` / `!` followed by
